@@ -785,10 +785,13 @@ where
         */ {
         let mut res = SmallVec::<[Payload; 8]>::new();
 
-        let mut output_stream = RotoOutputStream::new();
-        let mut ctx = Ctx::new(&mut output_stream);
-
         for p in payload {
+            // One output stream per payload: every route is one call of the
+            // filter, so a log entry that one route composes but does not
+            // write must not end up in the entry of the next route (bgp-in
+            // and bmp-in create one stream per message in the same way).
+            let mut output_stream = RotoOutputStream::new();
+            let mut ctx = Ctx::new(&mut output_stream);
             let ingress_id = match &p.context {
                 RouteContext::Fresh(f) => Some(f.provenance().ingress_id),
                 RouteContext::Mrt(m) => Some(m.provenance().ingress_id),
